@@ -26,6 +26,8 @@ pub enum DataPart {
     OnePacket,
     OneOver,
     P3,
+    /// one packet, well above 2000 bytes (the range in which a refused packet is re-fragmented)
+    Mid,
 }
 
 #[derive(Clone, Debug, Serialize, Deserialize)]
@@ -33,6 +35,9 @@ pub struct Case {
     pub count: usize,
     pub mix: Mix,
     pub data: DataPart,
+    /// the OS refuses these transmission attempts of the big send with ENOBUFS (bit i = attempt i)
+    #[serde(default)]
+    pub enobufs: u64,
 }
 
 #[derive(Serialize, Deserialize)]
@@ -133,6 +138,7 @@ fn data_for(d: DataPart, header: usize) -> Vec<u8> {
         DataPart::OnePacket => m.saturating_sub(header),
         DataPart::OneOver => m.saturating_sub(header) + 1,
         DataPart::P3 => 2 * m + 500,
+        DataPart::Mid => (m.saturating_sub(header) * 2 / 3).max(2100),
     };
     pattern(n, 5)
 }
@@ -143,7 +149,14 @@ pub fn body(c: &Case) -> Result<(), String> {
     // serialised size without the data bytes: 8 (items len) + per item 4 (variant) + 8 (index) + 8 (data len)
     let header = 8 + c.count * 12 + 8;
     let data = data_for(c.data, header);
+    if c.enobufs != 0 {
+        crate::interpose::arm();
+    }
     let r = tx.send(Big { items, data: data.clone() });
+    if c.enobufs != 0 {
+        crate::interpose::disarm();
+        crate::interpose::set_enobufs_mask(0);
+    }
     obs(format!("send={}", if r.is_ok() { "ok" } else { "err" }));
     match r {
         Err(_) => {},
@@ -158,7 +171,16 @@ pub fn body(c: &Case) -> Result<(), String> {
     // the channel must stay usable
     let plain = Big { items: vec![], data: vec![1, 2, 3] };
     tx.send(plain).map_err(|e| format!("plain message refused after the big one: {}", e))?;
-    match rx.recv() {
+    let mut first = rx.recv();
+    if r.is_err() && c.enobufs != 0 {
+        // a send that gave up part-way (the OS kept refusing a small follow-up packet) may leave
+        // the beginning of its message behind: the receiver reports that as an error *for that
+        // message* (not as the end of the channel) and carries on with the next one
+        if let Err(ipc::IpcError::Io(_)) = &first {
+            first = rx.recv();
+        }
+    }
+    match first {
         Ok(b) if b.data == vec![1, 2, 3] && b.items.is_empty() => {},
         Ok(_) => return Err("plain message arrived altered".into()),
         Err(e) => return Err(format!("plain message lost: {:?}", e)),
@@ -170,8 +192,8 @@ pub fn body(c: &Case) -> Result<(), String> {
     }
 }
 
-pub fn cfg_of(_: &Case) -> Cfg {
-    Cfg { sched: true, fake_sndbuf: Some(4608), ..Default::default() }
+pub fn cfg_of(c: &Case) -> Cfg {
+    Cfg { sched: true, fake_sndbuf: Some(4608), enobufs_mask: c.enobufs, ..Default::default() }
 }
 
 pub fn cases(tier: Tier) -> Vec<Case> {
@@ -184,7 +206,18 @@ pub fn cases(tier: Tier) -> Vec<Case> {
     for &count in &counts {
         for mix in [Mix::Senders, Mix::Receivers, Mix::Regions, Mix::Alternating] {
             for data in [DataPart::Empty, DataPart::Small, DataPart::OnePacket, DataPart::OneOver, DataPart::P3] {
-                v.push(Case { count, mix, data });
+                v.push(Case { count, mix, data, enobufs: 0 });
+            }
+        }
+    }
+    // the counts around the limit again while the OS refuses the first transmission attempts: a
+    // one-packet message that is re-fragmented needs one more descriptor than it did at first
+    for count in [61usize, 62, 63, 64, 65] {
+        for mix in [Mix::Senders, Mix::Receivers, Mix::Regions, Mix::Alternating] {
+            for data in [DataPart::Mid, DataPart::OnePacket, DataPart::OneOver] {
+                for enobufs in [1u64, 2, 3] {
+                    v.push(Case { count, mix, data, enobufs });
+                }
             }
         }
     }
@@ -208,7 +241,7 @@ pub fn run(tier: Tier, _part: bool) -> i32 {
                 } else {
                     refused_min = refused_min.min(c.count);
                 }
-                outcomes.insert(format!("{}/{:?}/{:?}/{}", c.count, c.mix, c.data, o));
+                outcomes.insert(format!("{}/{:?}/{:?}/{}/{}", c.count, c.mix, c.data, c.enobufs, o));
             },
             Err(e) if e.starts_with("MACHINERY") => rep.machinery(e),
             Err(e) => fails.push((c.clone(), e)),
@@ -227,7 +260,7 @@ pub fn run(tier: Tier, _part: bool) -> i32 {
     rep.set("distinct_nontrivial", json!(outcomes.len()));
     rep.set("largest_count_accepted", json!(accepted_max));
     rep.set("smallest_count_refused", json!(if refused_min == usize::MAX { Value::Null } else { json!(refused_min) }));
-    rep.set("rule", json!("case = (attachment count, mixture in {senders, receivers, regions, alternating}, data part in {empty, small, exactly one packet, one byte over, 3 packets}); quick: counts {0,1,62..66,127,252..254,300}, thorough: every count 0..=300; distinct_nontrivial = distinct (case, send result) pairs that completed"));
+    rep.set("rule", json!("case = (attachment count, mixture in {senders, receivers, regions, alternating}, data part in {empty, small, exactly one packet, one byte over, 3 packets}); quick: counts {0,1,62..66,127,252..254,300}, thorough: every count 0..=300; plus counts 61..65 x mixtures x {one packet above 2000 bytes, exactly one packet, one byte over} while the first / second / first two transmission attempts are refused with ENOBUFS; distinct_nontrivial = distinct (case, send result) pairs that completed"));
     rep.set("exhaustive", json!(true));
     rep.sample(serde_json::to_value(&cs[cs.len() / 2]).unwrap());
     rep.sample(serde_json::to_value(&cs[cs.len() - 1]).unwrap());
